@@ -378,6 +378,7 @@ func c01filesChild(raw json.RawMessage, scratch string) {
 		}
 	}
 	r.Count("lzf_backrefs_beyond_256", atomic.LoadInt64(&rdbgen.FarRefs))
+	r.Count("lzf_backrefs_beyond_4096", atomic.LoadInt64(&rdbgen.VeryFarRefs))
 	wk.ChildDone(r)
 }
 
@@ -657,6 +658,7 @@ func c01(c *wk.Ctx) {
 	r.Floor("keys_of_260B_or_more", 30)
 	r.Floor("scripts_of_260B_or_more", 30)
 	r.Floor("lzf_backrefs_beyond_256", 300)
+	r.Floor("lzf_backrefs_beyond_4096", 100)
 	for _, e := range []string{"string/raw", "string/int", "string/lzf", "list/linked", "list/ziplist", "list/quicklist", "set/table", "set/intset16", "set/intset32", "set/intset64", "zset/text", "zset/binary", "zset/ziplist", "hash/table", "hash/zipmap", "hash/ziplist", "stream"} {
 		r.Floor("enc:"+e, 20)
 	}
